@@ -592,6 +592,7 @@ class Run(object):
                     unc = [f for (f, o) in run.last_struct.get(t, ()) if not o.is_computed()]
                     run.emit("SegBegin", t=t, k=k, v=run.enc(recv), u=ru, a=run.active_id(), xs=unc)
                     run.probe_reprs()
+                    entered_in_seg = 0
                     for op in seg["ops"]:
                       o = op["o"]
                       try:
@@ -599,9 +600,13 @@ class Run(object):
                                 ctx = run.make_ctx(op["a"], t)
                                 ctx.__enter__()
                                 open_ctx.append(ctx)
+                                entered_in_seg += 1
                             elif o == "exit":
-                                ctx = open_ctx.pop()
-                                ctx.__exit__(None, None, None)
+                                if open_ctx and getattr(open_ctx[-1], "_c", None) == op["a"]:
+                                    ctx = open_ctx.pop()
+                                    entered_in_seg = max(0, entered_in_seg - 1)
+                                    ctx.__exit__(None, None, None)
+                                # else: the block was already left by a caught exception (try around the with)
                             elif o == "read":
                                 a = op["a"]
                                 val = run.svars[a].get() if a < 100 else getattr(run.attrobj, "a%d" % (a - 100))
@@ -691,6 +696,10 @@ class Run(object):
                         except BaseException as e:
                             vid, uid = run.exc_ids(e)
                             if term.get("catch") and isinstance(e, Exception):
+                                if term.get("cscope"):
+                                    # the try encloses the with-blocks entered in this segment: they are left by the exception
+                                    for _ in range(entered_in_seg):
+                                        open_ctx.pop().__exit__(type(e), e, e.__traceback__)
                                 recv = e
                                 ru = uid
                                 recvs.append(Caught(vid))
